@@ -1223,6 +1223,12 @@ func (e *Entry) ApplyDeviate(deviateOpts ...DeviateOpt) []error {
 						continue
 					}
 					if !hasIgnoreDeviateNotSupported(deviateOpts) {
+						if dp.Dir[deviatedNode.Name] != deviatedNode {
+							// Already removed, or not held in Dir at
+							// all (the input or output of an rpc).
+							appendErr(fmt.Errorf("%s: deviate not-supported cannot remove %s from %s", Source(e.Node), deviatedNode.Name, dp.Name))
+							continue
+						}
 						dp.delete(deviatedNode.Name)
 					}
 				case DeviationDelete:
